@@ -50,7 +50,9 @@ class IdealExperiment:
             temperature=d["temperature"],
             component=component,
             permeance=permeance,
-            activation_energy=d["activation_energy"],
+            activation_energy=None
+            if pandas.isna(d["activation_energy"])
+            else d["activation_energy"],
             comment=d["comment"],
         )
 
